@@ -323,6 +323,8 @@ impl<'tcx> TyGenContext<'_, 'tcx> {
                 }
                 // Outer struct has > 3 fields, always pad
                 (ScalarCount::Scalars(2), ScalarCount::Scalars(3..)) => ForcePaddingStatus::Force,
+                // Outer struct contains a union (an option), which forces "padded direct" passing for all of it
+                (ScalarCount::Scalars(2), ScalarCount::Memory) => ForcePaddingStatus::Force,
                 // Larger fields will always have padding anyway
                 _ => ForcePaddingStatus::NoForce
 
